@@ -86,6 +86,17 @@ theorem binaryIrrev_den_ne (t kf major minor : ℝ) (hkf : 0 < kf) (hminor : 0 <
     linarith
   linarith
 
+/-- for `0 < major < minor` (the "minor" reactant in excess), `0 < kf`, `0 ≤ t` the denominator does not vanish either -/
+theorem binaryIrrev_den_ne_minor_excess (t kf major minor : ℝ) (hkf : 0 < kf) (hmajor : 0 < major) (hlt : major < minor)
+    (ht : 0 ≤ t) : major / minor - Real.exp (-kf * t * (major - minor)) ≠ 0 := by
+  have hminor : 0 < minor := lt_trans hmajor hlt
+  have h1 : major / minor < 1 := by rw [div_lt_one hminor]; exact hlt
+  have h2 : 1 ≤ Real.exp (-kf * t * (major - minor)) := by
+    rw [Real.one_le_exp_iff]
+    have : 0 ≤ kf * t * (minor - major) := mul_nonneg (mul_nonneg hkf.le ht) (by linarith)
+    nlinarith
+  linarith
+
 /-! ### unary_irrev_cstr -/
 
 theorem unaryIrrevCstr_fst_hasDerivAt (t k r p fr fp fv : ℝ) (hk : fv + k ≠ 0) :
